@@ -285,7 +285,8 @@ def _gap_class(pts):
 
 def c18_points_cases(tier):
     q = tier == "quick"
-    lattice = [(t, x) for t in range(4) for x in range(4)]
+    # 5 frames so that gaps with >= 2 populated frames on both sides occur (0,1,_,3,4)
+    lattice = [(t, x) for t in range(5) for x in range(3)]
     nmax = 4 if q else 5
     for n in range(1, nmax + 1):
         for pts in itertools.combinations_with_replacement(lattice, n):
@@ -300,7 +301,7 @@ def c18_points_cases(tier):
 def c18_seg_case(case):
     from funtracks.candidate_graph import compute_graph_from_seg
     kind, flat, maxd, scale = case
-    T, Wd = 4, 3
+    T, Wd = 5, 3
     seg = np.array(flat, dtype=np.int64).reshape((T, 1, Wd))
     sc = [1.0, 1.0, 2.0] if scale else None
     try:
@@ -349,7 +350,7 @@ def c18_seg_case(case):
 
 def c18_seg_cases(tier):
     q = tier == "quick"
-    T, Wd = 4, 3
+    T, Wd = 5, 3
     # all label arrays with globally unique labels from <= 3 (quick) / 4 (thorough) detections:
     # a detection = a label painted on a contiguous run of pixels in one frame
     runs = [(t, a, b) for t in range(T) for a in range(Wd) for b in range(a + 1, Wd + 1)]
